@@ -109,7 +109,9 @@ def run_property(modname, tier, seed, replay=None, procs=None):
             report['notes'] += mod.pre_build() or []
         except Exception as e:
             report['broken'].append('pre-build (translator): %s' % e)
-    ok, log, tb = lean.build()
+    # only what this property needs: its theorem modules and the driver (a broken obligation of another
+    # property must not raise an alarm here)
+    ok, log, tb = lean.build(sorted(set(t[0] for t in mod.THEOREMS)) + ['eaodrv'])
     report['build_s'] = round(tb, 1)
     if not ok:
         report['build_ok'] = False
